@@ -204,7 +204,8 @@ def _strategy_dssp_system(tier):
                                  'atoms_per_res': st.integers(1, 2), 'hole': st.integers(0, 50),
                                  # node keys handed out against the order in which the atoms are stored: the residue order of
                                  # the library (lowest node key first) is then the reverse of the storage order
-                                 'keys_descending': st.sampled_from([False, False, True])})
+                                 'keys_descending': st.sampled_from([False, False, True]),
+                                 'other_names': st.sampled_from([False, False, True])})
     return st.fixed_dictionaries({'mols': st.lists(mol, min_size=2, max_size=5), 'twice': st.booleans()})
 
 
@@ -224,7 +225,9 @@ def _run_dssp_system(case):
         for ridx, c in enumerate(seq):
             row = []
             for a in range(md['atoms_per_res']):
-                attrs = dict(atomname='A%d' % a, resname='ALA', resid=ridx + 1, chain='ABCDE'[mi])
+                # residue names: amino acids, or a molecule that is not (only) made of them (capped or modified peptide, ligand)
+                resname = 'ALA' if not md.get('other_names') else ['ALA', 'SEP', 'LIG', 'ACE'][(ridx + md['hole']) % 4]
+                attrs = dict(atomname='A%d' % a, resname=resname, resid=ridx + 1, chain='ABCDE'[mi])
                 if md['annotated'] == 'full' or (md['annotated'] == 'partial' and ridx != hole):
                     attrs['aasecstruct'] = c
                 mol.add_node(key, **attrs)
@@ -273,6 +276,8 @@ def _run_dssp_system(case):
         classes.append('helix-at-both-sides-of-a-molecule-boundary')
     if any(md['annotated'] != 'full' for md in case['mols']):
         classes.append('has-unannotated-molecule')
+    if any(md.get('other_names') and md['annotated'] == 'full' for md in case['mols']):
+        classes.append('annotated-molecule-with-other-residue-names')
     if any(md.get('keys_descending') and md['annotated'] == 'full' and ref_convert(md['seq'][::-1])[::-1] != ref_convert(md['seq'])
            for md in case['mols']):
         classes.append('storage-order-against-key-order-matters')
